@@ -7,6 +7,7 @@ import Aldy.Driver.C11
 import Aldy.Driver.C10
 import Aldy.Driver.C12
 import Aldy.Driver.C06
+import Aldy.Driver.C07
 
 /-! Line-protocol driver: one JSON object per input line (`{"op": ..., ...}`), one JSON
 object per output line.  Errors are reported as `{"error": msg}`; the driver never guesses. -/
@@ -34,6 +35,7 @@ def dispatch (j : Json) : Except String Json := do
   | "select" => opSelect j
   | "writers" => opWriters j
   | "pileup" => opPileup j
+  | "normalize" => opNormalize j
   | "ping" => pure (objJ [("pong", boolJ true)])
   | _ => .error s!"unknown op {op}"
 
